@@ -65,5 +65,10 @@ def small_constants(npts, degrees=(3, 3, 3, 3), iota=0.0, seed=0, **kw):
                 npts=list(npts), splineDegrees=list(degrees), iotaVal=float(iota), eps=kw.pop("eps", 0.05), m=kw.pop("m", 2), n=kw.pop("n", 1),
                 dt=kw.pop("dt", 1))
     base["vMin"] = -base["vMax"]
+    if seed % 2:
+        # profile parameters that coincide in the defaults (ion / electron widths and gradients, unit B0) made different from each other
+        base.update(kN0=float(rs.uniform(0.03, 0.08)), kTi=float(rs.uniform(0.2, 0.35)), kTe=float(rs.uniform(0.2, 0.35)),
+                    deltaRTi=float(rs.uniform(0.9, 2.5)), deltaRTe=float(rs.uniform(0.9, 2.5)), deltaRN0=float(rs.uniform(1.8, 4.0)),
+                    CTi=float(rs.uniform(0.8, 1.3)), CTe=float(rs.uniform(0.8, 1.3)), B0=float(rs.choice([1.0, 2.5, 0.6])))
     base.update(kw)
     return pg.make_constants(**base)
